@@ -22,6 +22,10 @@ class TH { @tracked public qubit q; public int id; public constructor(int i) -> 
 class CN { public CN next; public QH held; public TH theld; public D plain; public int id; public constructor(int i) -> CN { this.id = i; this.next = null; this.held = null; this.theld = null; this.plain = null; } }
 class CX { public CX peer; public D extra; public Q qown; public constructor() -> CX { this.peer = null; this.extra = null; this.qown = null; } }
 class QS extends Q { public int extra = 1; public constructor() -> QS { super(); } }
+class TR { @tracked public qubit q; public TR other; public constructor() -> TR { this.other = null; } }
+class TRS extends TR { public constructor() -> TRS { super(); } }
+class QR { public qubit q; public QR other; public constructor() -> QR { this.other = null; } }
+class QRS extends QR { public constructor() -> QRS { super(); } }
 class J { public int k = 0; public constructor() -> J = default; public destructor() -> void { this.k = 1; this.k = 2; } }
 function mkqc(int i) -> QC { J j = new J(); return new QC(i); }
 function mktc(int i) -> TC { J j = new J(); return new TC(i); }
@@ -79,6 +83,11 @@ BODIES = {
     "qubit-handle-outlives-cycle-owner": ["CX w = new CX();", "w.qown = new Q();", "w.peer = w;", "qubit hq = w.qown.q;", "w = null;", "x(hq);", "echo(burst(2));", "echo(measure hq);"],
     # a subclass that merely inherits a qubit field, in a dropped cycle
     "inherited-qubit-field-in-cycle": ["CX a = new CX();", "a.qown = new QS();", "a.peer = a;", "qubit hq = a.qown.q;", "x(hq);", "a = null;", "echo(burst(2));", "echo(measure hq);"],
+    # hunt C03/d8: a dropped cycle of objects that hold (tracked) qubits, of the class that declares the field and of a subclass that
+    # only inherits it: same outcome counts and same later measurements whenever the collector runs
+    "tracked-cycle-of-declaring-class": ["TR a = new TR();", "TR b = new TR();", "a.other = b;", "b.other = a;", "x(a.q);", "measure a.q;", "a = null;", "b = null;", "echo(burst(2));", "qubit fresh;", "echo(measure fresh);"],
+    "tracked-cycle-of-subclass": ["TRS a = new TRS();", "TRS b = new TRS();", "a.other = b;", "b.other = a;", "x(a.q);", "measure a.q;", "a = null;", "b = null;", "echo(burst(2));", "qubit fresh;", "echo(measure fresh);"],
+    "qubit-cycle-of-subclass": ["QRS a = new QRS();", "QRS b = new QRS();", "a.other = b;", "b.other = a;", "x(a.q);", "qubit keep = b.q;", "x(keep);", "a = null;", "b = null;", "echo(burst(2));", "qubit fresh;", "echo(measure fresh);", "echo(measure keep);"],
     "pressure": ["echo(burst(18));", "N k = new N(9);", "echo(burst(18));", "echo(k.id);"],
     "pressure-args": ["echo(link(mk(burst(18)), mk(burst(18))));"],
     "list": ["N h = chain(5);", "echo(len(h));", "echo(burst(2));", "echo(len(h));", "h.next.next = null;", "echo(burst(2));", "echo(len(h));"],
